@@ -146,6 +146,21 @@ def poolUse (s : St) (t : Nat) : St :=
   | .user u, some p => { s with log := .use p u :: s.log }
   | _, _ => s
 
+/-! ## batch operations of the pool API (`ABT_pool_pop_threads`, the adapter over a legacy `ABT_pool_def`) -/
+/-- what a pop of at most `m` units does to the content `q` of a FIFO-ordered pool: (units handed out, units that stay) -/
+def popManySplit (q : List Nat) (m : Nat) : List Nat × List Nat := (q.take m, q.drop m)
+
+/-- the adapter over a legacy definition: call the user's `p_pop` (which hands out the head) until the buffer of `m` slots is
+full or the pool reports empty; returns (units stored in the buffer, units left in the pool, calls of `p_pop`) -/
+def popManyLoop (q : List Nat) : Nat → List Nat × List Nat × Nat
+  | 0 => ([], q, 0)
+  | m + 1 =>
+    match q with
+    | [] => ([], [], 1)                       -- the call that finds the pool empty
+    | t :: rest =>
+      let (got, left, calls) := popManyLoop rest m
+      (t :: got, left, calls + 1)
+
 inductive Op where
   | init (t p : Nat) (nu : UInt64) (mem : Bool)
   | setPool (t p : Nat) (nu : UInt64) (mem : Bool)
